@@ -120,7 +120,7 @@ def pack (value : Int) (size : Option Nat) (e : Endian) : Option Bytes :=
 /-- `unpack(value, size, endian, sign)`; error = ValueError -/
 def unpack (bs : Bytes) (size : Option Nat) (e : Endian) (sign : Bool) : Option Int :=
   match size with
-  | some s => if s ≠ 0 ∧ bs.length ≠ s / 8 then none else some (decodeInt e sign bs)
+  | some s => if s ≠ 0 ∧ bs.length ≠ (s + 7) / 8 then none else some (decodeInt e sign bs)
   | none => some (decodeInt e sign bs)
 
 /-- `swap(value, size)` -/
